@@ -152,7 +152,11 @@ func finishRun(e *Engine, results []*FnResult, ro runOpts) int {
 				if r.Contract != nil {
 					for _, u := range r.Contract.Unreachable {
 						if strings.HasSuffix(o.Name, "reach@"+u) || strings.HasSuffix(strings.TrimRight(o.Name, "0123456789~"), "reach@"+u) {
-							machinery = append(machinery, o.Name+": declared unreachable but the solver found it reachable")
+							if o.Solver != "" {
+								machinery = append(machinery, o.Name+": declared unreachable but the solver ("+o.Solver+") found it reachable")
+							} else {
+								fmt.Printf("NOTE: %s: declared unreachable; undecided in this run (%s)\n", o.Name, o.Detail)
+							}
 						}
 					}
 				}
